@@ -99,8 +99,9 @@ def gen(rng, tier):
         ab = gen_abstract(rng)
         text, meta = render(rng, ab)
         return {"kind": "reader", "abstract": ab, "text": text, "meta": meta, "peer": {"seed": rng.getrandbits(32)}}
-    net = G.gen_net(rng, n_inputs=(1, 5), n_gates=(1, 12), types=G.swarm_types(rng), max_arity=rng.randint(2, 5),
-                    constants=rng.choice((0.0, 0.6, 1.0)), name_style=rng.choice(("plain", "underscore")),
+    big = tier == "thorough" and rng.random() < 0.25
+    net = G.gen_net(rng, n_inputs=(2, 7) if big else (1, 5), n_gates=(10, 24) if big else (1, 12), types=G.swarm_types(rng),
+                    max_arity=rng.randint(2, 5), constants=rng.choice((0.0, 0.6, 1.0)), name_style=rng.choice(("plain", "underscore")),
                     input_outputs=rng.choice((0.0, 0.2)), name=rng.choice(("top", "c17", "my_ckt")))
     return {"kind": "writer", "net": net, "peer": {"seed": rng.getrandbits(32)}}
 
